@@ -195,7 +195,18 @@ fn worker_main(
 
 /// Evaluate a scenario in a child process (for abort / hang cases). Returns the
 /// violations it reports, or a synthetic one if the child dies or times out.
-fn eval_isolated(check: &dyn Check, scenario: &Value, timeout: Duration) -> (Vec<Violation>, u64) {
+/// A history: scenarios (named by seed, tier and index - generation is a pure function of
+/// these) that one process runs, in order, BEFORE the scenario under evaluation. It makes
+/// state that the code under test keeps between calls (statics, caches, thread-locals) part
+/// of the replayable input.
+#[derive(Clone, Debug, serde::Serialize, serde::Deserialize, PartialEq)]
+pub struct History {
+    pub seed: u64,
+    pub tier: String,
+    pub indices: Vec<u64>,
+}
+
+fn eval_isolated_after(check: &dyn Check, scenario: &Value, history: Option<&History>, timeout: Duration) -> (Vec<Violation>, u64) {
     let dir = work_dir();
     let path = dir.join(format!(
         "exec-{}-{:x}.json",
@@ -206,7 +217,7 @@ fn eval_isolated(check: &dyn Check, scenario: &Value, timeout: Duration) -> (Vec
             h.finish()
         }
     ));
-    std::fs::write(&path, json!({"property": check.id(), "scenario": scenario}).to_string()).unwrap();
+    std::fs::write(&path, json!({"property": check.id(), "scenario": scenario, "history": history}).to_string()).unwrap();
     let exe = exe_for_scenario(check, scenario);
     let mut child = Command::new(exe)
         .arg("exec")
@@ -291,13 +302,14 @@ fn minimise(
     isolated: bool,
     watchdog: Duration,
     budget: Duration,
+    history: Option<&History>,
 ) -> (Value, Violation, u64, u64) {
     let t0 = Instant::now();
     let mut steps = 0u64;
-    let isolated = isolated || check.dual_mode();
+    let isolated = isolated || check.dual_mode() || history.is_some();
     let eval = |s: &Value| -> (Vec<Violation>, u64) {
         if isolated {
-            eval_isolated(check, s, watchdog)
+            eval_isolated_after(check, s, history, watchdog.saturating_mul(1 + history.map_or(0, |h| h.indices.len() as u32)))
         } else {
             let mut st = Stats::default();
             let o = run_guarded(check, s, &mut st);
@@ -343,6 +355,53 @@ fn minimise(
     }
     current.narrowed = None;
     (scenario, current, cur_hash, steps)
+}
+
+/// Search for a minimal history (see `History`) after which `scenario` shows the violation
+/// class `target`: first the worker's complete history up to the scenario, then the shortest
+/// reproducing suffix, then single deletions.
+fn history_search(
+    check: &dyn Check,
+    seed: u64,
+    tier: Tier,
+    indices: Vec<u64>,
+    scenario: &Value,
+    target: &Violation,
+    watchdog: Duration,
+) -> Option<(History, Violation, u64)> {
+    let t0 = Instant::now();
+    let budget = Duration::from_secs(if tier == Tier::Quick { 300 } else { 1200 });
+    let eval = |ix: &[u64]| -> Option<(Violation, u64)> {
+        let h = History { seed, tier: tier.name().to_string(), indices: ix.to_vec() };
+        let timeout = watchdog.saturating_mul(1 + ix.len() as u32).min(Duration::from_secs(3600));
+        let (vs, hash) = eval_isolated_after(check, scenario, Some(&h), timeout);
+        vs.into_iter().find(|v| same_class(v, target)).map(|v| (v, hash))
+    };
+    let mut best = eval(&indices)?;
+    let mut cur = indices;
+    // shortest reproducing suffix (1, 2, 4, ... last scenarios)
+    let mut k = 1usize;
+    while k < cur.len() && t0.elapsed() < budget {
+        if let Some(b) = eval(&cur[cur.len() - k..]) {
+            cur = cur[cur.len() - k..].to_vec();
+            best = b;
+            break;
+        }
+        k *= 2;
+    }
+    // single deletions
+    let mut i = 0;
+    while i < cur.len() && t0.elapsed() < budget {
+        let mut cand = cur.clone();
+        cand.remove(i);
+        if let Some(b) = eval(&cand) {
+            cur = cand;
+            best = b;
+        } else {
+            i += 1;
+        }
+    }
+    Some((History { seed, tier: tier.name().to_string(), indices: cur }, best.0, best.1))
 }
 
 pub fn work_dir() -> PathBuf {
@@ -578,6 +637,7 @@ fn supervise(check: &'static dyn Check, tier: Tier) -> i32 {
             *isolated,
             watchdog,
             Duration::from_secs(if tier == Tier::Quick { 60 } else { 240 }),
+            None,
         );
         let mut sig_h = H64::new();
         sig_h.str(&min_v.invariant).str(&min_v.signature);
@@ -593,13 +653,52 @@ fn supervise(check: &'static dyn Check, tier: Tier) -> i32 {
         let out = Command::new(&exe).arg("replay").arg(&path).output().expect("spawn replay");
         let text = String::from_utf8_lossy(&out.stdout);
         let want = format!("REPLAYED invariant={} signature={} log_hash={}", min_v.invariant, min_v.signature, min_h);
+        let mut min_v = min_v;
         if !text.lines().any(|l| l == want) {
-            eprintln!(
-                "harness error: replay of {} did not reproduce `{want}`; got:\n{text}",
-                path.display()
-            );
-            harness_error = true;
-            continue;
+            // Not a function of the scenario alone: does it depend on what the same process ran
+            // before (state kept by the code under test between calls)? Re-run the worker's
+            // history in a fresh process, minimise it, and make it part of the replay file.
+            let found = if *isolated {
+                None
+            } else {
+                let shard = index % workers;
+                let indices: Vec<u64> = (0..).map(|k| shard + k * workers).take_while(|i| i < index).collect();
+                history_search(check, seed, tier, indices, scenario, v, watchdog)
+            };
+            match found {
+                Some((hist, hv, _)) => {
+                    // with the history fixed, shrink the scenario itself
+                    let (min_s, hv, hh, hsteps) = minimise(check, scenario.clone(), &hv, true, watchdog, Duration::from_secs(if tier == Tier::Quick { 60 } else { 240 }), Some(&hist));
+                    let steps = steps + hsteps;
+                    let scenario = &min_s;
+                    let replay = json!({
+                        "property": id, "verif_seed": seed, "tier": tier.name(), "scenario_index": index,
+                        "invariant": hv.invariant, "signature": hv.signature, "detail": hv.detail,
+                        "log_hash": hh, "isolated": true, "minimiser_steps": steps,
+                        "history": hist,
+                        "scenario": scenario,
+                    });
+                    std::fs::write(&path, serde_json::to_string_pretty(&replay).unwrap()).unwrap();
+                    let out = Command::new(&exe).arg("replay").arg(&path).output().expect("spawn replay");
+                    let text = String::from_utf8_lossy(&out.stdout);
+                    let want = format!("REPLAYED invariant={} signature={} log_hash={}", hv.invariant, hv.signature, hh);
+                    if !text.lines().any(|l| l == want) {
+                        eprintln!("harness error: history replay of {} did not reproduce `{want}`; got:\n{text}", path.display());
+                        harness_error = true;
+                        continue;
+                    }
+                    min_v = hv;
+                    min_v.detail = format!("[depends on the {} scenario(s) run before it in the same process] {}", hist.indices.len(), min_v.detail);
+                }
+                None => {
+                    eprintln!(
+                        "harness error: replay of {} did not reproduce `{want}`; got:\n{text}",
+                        path.display()
+                    );
+                    harness_error = true;
+                    continue;
+                }
+            }
         }
         if let Some(kf) = known_open(&known, id, &min_v) {
             known_lines.push(format!("KNOWN-FINDING: property={id} {} [signature={}]", kf.what, kf.signature));
@@ -701,13 +800,12 @@ fn replay_main(checks: &[&'static dyn Check], path: &Path) -> i32 {
         return 2;
     };
     let scenario = v["scenario"].clone();
-    let isolated = v["isolated"].as_bool().unwrap_or(false) || check.dual_mode();
+    let history: Option<History> = serde_json::from_value(v["history"].clone()).ok().flatten();
+    let isolated = v["isolated"].as_bool().unwrap_or(false) || check.dual_mode() || history.is_some();
     let (viols, h) = if isolated {
-        eval_isolated(
-            *check,
-            &scenario,
-            Duration::from_secs(std::env::var("VERIF_WATCHDOG_S").ok().and_then(|s| s.parse().ok()).unwrap_or_else(|| check.watchdog_s(Tier::Quick))),
-        )
+        let base = std::env::var("VERIF_WATCHDOG_S").ok().and_then(|s| s.parse().ok()).unwrap_or_else(|| check.watchdog_s(Tier::Quick));
+        let steps = 1 + history.as_ref().map_or(0, |h| h.indices.len() as u64);
+        eval_isolated_after(*check, &scenario, history.as_ref(), Duration::from_secs(base.saturating_mul(steps).min(7200)))
     } else {
         let c = *check;
         big_stack(move || {
@@ -733,7 +831,16 @@ fn exec_main(checks: &[&'static dyn Check], path: &Path) -> i32 {
     let id = v["property"].as_str().unwrap_or("").to_string();
     let check = *checks.iter().find(|c| c.id() == id).expect("property");
     let scenario = v["scenario"].clone();
+    let history: Option<History> = serde_json::from_value(v["history"].clone()).ok().flatten();
     let (viols, h) = big_stack(move || {
+        if let Some(hist) = history {
+            let tier = Tier::parse(&hist.tier).unwrap_or(Tier::Quick);
+            for i in hist.indices {
+                let s = check.generate(run_seed(hist.seed, check.id(), i), i, tier);
+                let mut st = Stats::default();
+                let _ = run_guarded(check, &s, &mut st);
+            }
+        }
         let mut st = Stats::default();
         let o = run_guarded(check, &scenario, &mut st);
         (o.violations, o.log_hash)
